@@ -5,9 +5,11 @@
                    or a.shape[0] != rk_extra_step
      ValueError if e is given and e.shape[0] != rk_step
      interpolate = bi is not None and interpolate
-     ValueError if interpolate and bi.shape[0] != rk_extra_step              *)
+     ValueError if bi is given and bi.shape[0] != rk_extra_step
+       (whether or not `interpolate` is on: the dense output is also used
+        for a target time inside the last step)                              *)
 From Coq Require Import Arith Bool.
 Definition init_coeff_ok (nb nc na0 na1 : nat) (ne nbi : option nat) (interp : bool) : bool :=
   negb ((nc <? nb) || negb (na1 =? nc) || negb (na0 =? nc))
   && match ne with Some k => k =? nb | None => true end
-  && match nbi with Some k => if interp then k =? nc else true | None => true end.
+  && match nbi with Some k => k =? nc | None => true end.
